@@ -2,6 +2,7 @@ SPECIFICATION Spec
 CONSTANTS
   Reqs = {1, 2, 3, 4}
   MaxTag = 7
+  FixSent = TRUE
   ReleaseOnTimeout = FALSE
 INVARIANT NoViolation
 INVARIANT EndClause
